@@ -100,6 +100,10 @@ class RecomputingDict(MutableMapping[RuleKey, AbstractStrategy]):
                 else:
                     rule = x
                 try:
+                    if not all(c in self.classdb for c in rule.children):
+                        # The searcher never saw one of the children so this is
+                        # not a rule that was stored.
+                        continue
                     start_label = self.classdb.get_label(rule.comb_class)
                     nonempty_children = tuple(
                         c for c in rule.children if not self.classdb.is_empty(c)
